@@ -18,8 +18,8 @@ TAB == "\t"
 CR == "\r"
 AlphaSmoke  == {"x", "s", "'", "\"", NL, " ", "1", "."}
 AlphaCore   == {"x", "S", "s", "r", "e", "n", "1", ".", " ", NL, "'", "\"", "(", ")", "-", "_", ",", "<", "=", "~", "`"}
-AlphaMulti  == {"x", "s", "r", "e", "'", "\"", "(", ")", NL, " ", "~", "1"}            \* multi-line literals + suffixes
-AlphaUni    == {"s", "'", "%", "$", "^", "~", "@", "#", "|", "`", "\\", "i", "t", " ", NL}    \* non-ASCII classes
+AlphaMulti  == {"x", "s", "r", "e", "'", "\"", "(", ")", NL, " ", "~", "1", "\\"}            \* multi-line literals + suffixes
+AlphaUni    == {"s", "'", "%", "$", "^", "~", "@", "#", "|", "`", "\f", "i", "t", " ", NL}    \* non-ASCII classes
 AlphaNum    == {"1", "0", ".", "e", "E", "x", "'", "s", "@", "-", "+", " ", "_", "r"}    \* numerals
 AlphaWs     == {"x", " ", TAB, CR, NL, "|", "!", ";", "'", "n", "&", "s"}                \* blanks, line ends, 'n'
 AlphaKw     == {"a", "i", "s", "t", "n", "o", "'", "A", "I", "%", " ", NL, "r", "e"}     \* short keywords in any case
